@@ -8,7 +8,7 @@ from . import core, probe
 from .contracts_api import ApiImmut
 from .contracts_tt import _is_tt, check_returned
 from .dense import dense_cores, tt_consistent
-from .monitors_transform import product_tensor, parse
+from .monitors_transform import product_tensor, parse, pristine
 
 P = 'C16'
 ARR_TRACE = None
@@ -58,7 +58,7 @@ class Mandy(ApiImmut):
             c.check(self.api, 'returns_consistent_tt', False, prop=P)
             return
         if self.name == 'mandy_cm':
-            factors = [np.array([[float(f(x[i, j])) for j in range(m)] for f in phi]) for i in range(d)]
+            factors = [np.array([[float(f(x[i, j])) for j in range(m)] for f in pristine(phi)]) for i in range(d)]
         else:
             factors = []
             for f in phi:
@@ -106,7 +106,7 @@ class MandyKb(ApiImmut):
         if N * m > 2 ** 16:
             return
         with probe.oracle():
-            factors = [np.array([[float(f(x[:, j])) for j in range(m)] for f in fl]) for fl in bl]
+            factors = [np.array([[float(f(x[:, j])) for j in range(m)] for f in fl]) for fl in pristine(bl)]
         A = product_tensor(factors).reshape(N, m)
         G = A.T @ A
         cg = float(np.linalg.cond(G))
